@@ -185,6 +185,23 @@ func (m *bsim) moreOutputs(ctx context.Context, moduleSet bufmodule.ModuleSet, i
 		return fmt.Errorf("format: %w", err)
 	}
 	res.outputs["format"] = fm.String()
+
+	// `buf format -d`: the unified diffs of the files that would change, one after the other (this
+	// shells out to diff(1) once per changed file, so only some runs produce this output)
+	if m.withFormatDiff {
+		original := bufmodule.ModuleReadBucketToStorageReadBucket(bufmodule.ModuleReadBucketWithOnlyTargetFiles(
+			bufmodule.ModuleSetToModuleReadBucketWithOnlyProtoFilesForTargetModules(moduleSet)))
+		formattedTargets, err := bufformat.FormatBucket(ctx, original)
+		if err != nil {
+			return fmt.Errorf("format -d: %w", err)
+		}
+		var diffBuffer bytes.Buffer
+		changed, err := storage.DiffWithFilenames(ctx, &diffBuffer, original, formattedTargets, storage.DiffWithExternalPaths(), storage.DiffWithSuppressTimestamps())
+		if err != nil {
+			return fmt.Errorf("format -d: %w", err)
+		}
+		res.outputs["format-diff"] = strings.Join(changed, ",") + "\n" + diffBuffer.String()
+	}
 	return nil
 }
 
